@@ -200,3 +200,395 @@ Proof.
   pose proof (body_twin st V) as H. destruct (body true st) as [s1 r1]. destruct (body false (er st)) as [s2 r2].
   destruct H as (E & R & _). subst s2 r2. destruct r1; split; reflexivity.
 Qed.
+
+(* ---- Stage 2 (a): what a hit relies on -- re-running a SETTLED workflow changes nothing ------------- *)
+(* a settled workflow: every child has run on the inputs it shows and nothing has been touched since *)
+Definition settled_child (st : wstate) (i : nat) : Prop :=
+  let c := kid st i in
+  cfailed c = false /\ (0 <= own c)%Z /\ out c = Some (ck c + own c)%Z /\
+  match src c with Some j => j < i /\ out (kid st j) = Some (own c) | None => True end.
+Definition Settled (st : wstate) : Prop := forall i, i < List.length (kids st) -> settled_child st i.
+
+Lemma set_nth_same {A} (l : list A) i d : i < List.length l -> set_nth l i (nth i l d) = l.
+Proof.
+  revert i; induction l as [|x r IH]; intros [|i] H; cbn in *; try lia; [reflexivity|]. f_equal. apply IH. lia.
+Qed.
+
+Lemma run_child_settled st i : i < List.length (kids st) -> settled_child st i -> run_child false st i = (st, CRan).
+Proof.
+  intros Hi (Hf & Hp & Ho & Hs). unfold run_child. remember (kid st i) as c eqn:Ec.
+  assert (Ha : fetched st c = own c).
+  { unfold fetched. destruct (src c) as [j|]; [|reflexivity]. destruct Hs as [_ Hj]. rewrite Hj. reflexivity. }
+  rewrite Ha, Hf. cbn [andb]. assert (Hn : (own c <? 0)%Z = false) by (apply Z.ltb_ge; exact Hp). rewrite Hn.
+  assert (Er : {| ck := ck c; own := own c; src := src c; out := Some (ck c + own c)%Z; ccache := ccache c; cfailed := false |} = c).
+  { rewrite <- Ho, <- Hf. destruct c; reflexivity. }
+  rewrite Er. f_equal. subst c. unfold set_kid, kid. destruct st as [ks wc wf]. cbn in *. f_equal.
+  apply set_nth_same. exact Hi.
+Qed.
+
+Lemma start_settled st : Settled st -> forall is ran, (forall i, In i is -> i < List.length (kids st)) ->
+  start_phase false st is ran = (st, rev (filter (fun i => match src (kid st i) with None => true | Some _ => false end) is) ++ ran, CRan).
+Proof.
+  intros S. induction is as [|i r IH]; intros ran Hb; cbn [start_phase filter rev app]; [reflexivity|].
+  assert (Hi : i < List.length (kids st)) by (apply Hb; left; reflexivity).
+  assert (Hr : forall j, In j r -> j < List.length (kids st)) by (intros j Hj; apply Hb; right; exact Hj).
+  destruct (src (kid st i)) as [j|] eqn:Es.
+  - apply IH. exact Hr.
+  - rewrite (run_child_settled st i Hi (S i Hi)). rewrite (IH (i :: ran) Hr). cbn [rev]. rewrite <- app_assoc. reflexivity.
+Qed.
+
+Lemma loop_settled st : Settled st -> forall n a ran,
+  a + n = List.length (kids st) ->
+  (forall j, j < List.length (kids st) -> src (kid st j) = None -> In j ran) ->
+  (forall j, j < a -> In j ran) ->
+  loop_phase false st (seq a n) ran true = (st, true).
+Proof.
+  intros S. induction n as [|n IH]; intros a ran Hl Hu Hc; cbn [seq loop_phase]; [reflexivity|].
+  assert (Ha : a < List.length (kids st)) by lia.
+  destruct (src (kid st a)) as [j|] eqn:Es.
+  - destruct (S a Ha) as (_ & _ & _ & Hs). rewrite Es in Hs. destruct Hs as [Hj _].
+    assert (Hm : memn j ran = true) by (apply memn_In; apply Hc; exact Hj). rewrite Hm.
+    rewrite (run_child_settled st a Ha (S a Ha)). apply IH; [lia | | ].
+    + intros x Hx Hs. right. apply Hu; assumption.
+    + intros x Hx. destruct (Nat.eq_dec x a) as [E|E]; [left; symmetry; exact E | right; apply Hc; lia].
+  - apply IH; [lia | exact Hu |].
+    intros x Hx. destruct (Nat.eq_dec x a) as [E|E]; [subst; apply Hu; assumption | apply Hc; lia].
+Qed.
+
+Theorem settled_rerun_is_identity st : Settled st -> body false st = (st, WValue).
+Proof.
+  intros S. unfold body.
+  rewrite (start_settled st S (seq 0 (List.length (kids st))) []); [|intros i Hi; apply in_seq in Hi; lia].
+  rewrite (loop_settled st S (List.length (kids st)) 0); try reflexivity; try lia.
+  intros j Hj Hs. apply in_or_app. left. apply -> in_rev. apply filter_In. split; [apply in_seq; lia | rewrite Hs; reflexivity].
+Qed.
+
+(* hence a hit on a settled workflow returns exactly what the uncached twin computes *)
+Theorem hit_on_settled_equals_twin st : Settled st -> wfailed st = false ->
+  fst (run_wf false st) = st /\ snd (run_wf false st) = WValue.
+Proof.
+  intros S Hf. unfold run_wf. rewrite Hf. cbn [andb]. rewrite (settled_rerun_is_identity st S). cbn.
+  destruct st as [ks wc wf]. cbn in *. subst. split; reflexivity.
+Qed.
+
+(* ---- Stage 2 (b): a successful body leaves a settled workflow ------------------------------------------ *)
+Definition Forward (st : wstate) : Prop := forall i j, src (kid st i) = Some j -> j < i.
+
+Lemma nth_set_nth_eq {A} (l : list A) i x d : i < List.length l -> nth i (set_nth l i x) d = x.
+Proof. revert i; induction l as [|y r IH]; intros [|i] H; cbn in *; try lia; [reflexivity | apply IH; lia]. Qed.
+Lemma nth_set_nth_neq {A} (l : list A) i j x d : i <> j -> nth j (set_nth l i x) d = nth j l d.
+Proof.
+  revert i j; induction l as [|y r IH]; intros [|i] [|j] H; cbn; try reflexivity; try congruence. apply IH. congruence.
+Qed.
+Lemma set_nth_length {A} (l : list A) i x : List.length (set_nth l i x) = List.length l.
+Proof. revert i; induction l as [|y r IH]; intros [|i]; cbn; try reflexivity. f_equal. apply IH. Qed.
+
+Lemma kid_set_eq st i c : i < List.length (kids st) -> kid (set_kid st i c) i = c.
+Proof. intros H. unfold kid, set_kid; cbn. apply nth_set_nth_eq. exact H. Qed.
+Lemma kid_set_neq st i j c : i <> j -> kid (set_kid st i c) j = kid st j.
+Proof. intros H. unfold kid, set_kid; cbn. apply nth_set_nth_neq. exact H. Qed.
+
+(* what one child's run does to the rest: nothing; to the structure: nothing *)
+Lemma run_child_frame uc st i : i < List.length (kids st) ->
+  let s1 := fst (run_child uc st i) in
+  List.length (kids s1) = List.length (kids st) /\
+  (forall j, j <> i -> kid s1 j = kid st j) /\
+  src (kid s1 i) = src (kid st i) /\ ck (kid s1 i) = ck (kid st i).
+Proof.
+  intros Hi. unfold run_child.
+  assert (G : forall c', src c' = src (kid st i) -> ck c' = ck (kid st i) ->
+              List.length (kids (set_kid st i c')) = List.length (kids st) /\
+              (forall j, j <> i -> kid (set_kid st i c') j = kid st j) /\
+              src (kid (set_kid st i c') i) = src (kid st i) /\ ck (kid (set_kid st i c') i) = ck (kid st i)).
+  { intros c' H1 H2. split; [unfold set_kid; cbn; apply set_nth_length|].
+    split; [intros j Hj; apply kid_set_neq; congruence|]. rewrite kid_set_eq by exact Hi. split; assumption. }
+  destruct (cfailed (kid st i)); [cbn [fst]; apply G; reflexivity|].
+  destruct (uc && match ccache (kid st i) with Some x => Z.eqb x (fetched st (kid st i)) | None => false end);
+    [cbn [fst]; apply G; reflexivity|].
+  destruct (fetched st (kid st i) <? 0)%Z; cbn [fst]; apply G; reflexivity.
+Qed.
+
+(* a child that ran (with a valid cache, after a settled upstream) is settled *)
+Lemma run_child_settles uc st i : i < List.length (kids st) -> Valid st ->
+  (forall j, src (kid st i) = Some j -> j < i /\ exists v, out (kid st j) = Some v) ->
+  snd (run_child uc st i) = CRan -> settled_child (fst (run_child uc st i)) i.
+Proof.
+  intros Hi V Hs. pose proof (kid_valid st i V) as Hv. unfold run_child, settled_child.
+  remember (kid st i) as c eqn:Ec. set (a := fetched st c).
+  assert (Hlink : match src c with Some j => j < i /\ out (kid st j) = Some a | None => True end).
+  { destruct (src c) as [j|] eqn:Es; [|exact I]. destruct (Hs j eq_refl) as [Hj [v Hv']]. split; [exact Hj|].
+    unfold a, fetched. rewrite Es, Hv'. reflexivity. }
+  destruct (cfailed c) eqn:Ef; [cbn; discriminate|].
+  destruct (uc && match ccache c with Some x => Z.eqb x a | None => false end) eqn:Eh.
+  - cbn [fst snd]. intros _. rewrite kid_set_eq by exact Hi. cbn.
+    apply andb_true_iff in Eh. destruct Eh as [_ Eh]. destruct (ccache c) as [x|] eqn:Ecc; [|discriminate].
+    apply Z.eqb_eq in Eh. subst x. destruct (Hv a Ecc) as [Ho Hp].
+    repeat split; try assumption.
+    destruct (src c) as [j|]; [|exact I]. destruct Hlink as [Hj Ho']. split; [exact Hj|].
+    rewrite nth_set_nth_neq by lia. exact Ho'.
+  - destruct (a <? 0)%Z eqn:En; [cbn; discriminate|]. cbn [fst snd]. intros _. rewrite kid_set_eq by exact Hi. cbn.
+    repeat split; try reflexivity; [apply Z.ltb_ge; exact En|].
+    destruct (src c) as [j|]; [|exact I]. destruct Hlink as [Hj Ho']. split; [exact Hj|].
+    rewrite nth_set_nth_neq by lia. exact Ho'.
+Qed.
+
+(* settledness of an already settled child survives the run of ANOTHER child that is not its upstream *)
+Lemma settled_child_frame uc st i k : k < List.length (kids st) -> k <> i ->
+  (forall j, src (kid st i) = Some j -> j <> k) ->
+  settled_child st i -> settled_child (fst (run_child uc st k)) i.
+Proof.
+  intros Hk Hne Hup (Hf & Hp & Ho & Hs). destruct (run_child_frame uc st k Hk) as (_ & Hfr & _ & _).
+  unfold settled_child. rewrite (Hfr i) by congruence. repeat split; try assumption.
+  destruct (src (kid st i)) as [j|] eqn:Es; [|exact I]. destruct Hs as [Hj Hoj]. split; [exact Hj|].
+  rewrite (Hfr j); [exact Hoj | apply Hup; reflexivity].
+Qed.
+
+(* the two phases: everything in [ran] is settled with its upstream in [ran]; nothing outside [ran] has run *)
+Definition RanInv (st : wstate) (ran : list nat) : Prop :=
+  forall i, In i ran -> i < List.length (kids st) /\ settled_child st i /\
+                        (forall j, src (kid st i) = Some j -> In j ran).
+
+Lemma raninv_step uc st ran k : Valid st -> Forward st -> RanInv st ran -> k < List.length (kids st) -> ~ In k ran ->
+  (forall j, src (kid st k) = Some j -> In j ran) ->
+  snd (run_child uc st k) = CRan -> RanInv (fst (run_child uc st k)) (k :: ran).
+Proof.
+  intros V F R Hk Hn Hup Hr i [E|Hi].
+  - subst i. destruct (run_child_frame uc st k Hk) as (Hl & _ & Hsrc & _). split; [rewrite Hl; exact Hk|]. split.
+    + apply run_child_settles; try assumption. intros j Hj. split; [apply (F k j Hj)|].
+      destruct (R j (Hup j Hj)) as (_ & (_ & _ & Ho & _) & _). eexists. exact Ho.
+    + intros j Hj. right. apply Hup. rewrite <- Hsrc. exact Hj.
+  - destruct (R i Hi) as (Hil & Hs & Hu). destruct (run_child_frame uc st k Hk) as (Hl & Hfr & _ & _).
+    assert (Hik : i <> k) by (intros E; subst; contradiction).
+    split; [rewrite Hl; exact Hil|]. split.
+    + apply settled_child_frame; try assumption; [congruence|]. intros j Hj E. subst j. apply Hn. apply Hu. exact Hj.
+    + intros j Hj. right. apply Hu. rewrite <- (Hfr i) by congruence. exact Hj.
+Qed.
+
+Lemma forward_frame uc st k : k < List.length (kids st) -> Forward st -> Forward (fst (run_child uc st k)).
+Proof.
+  intros Hk F i j Hs. destruct (run_child_frame uc st k Hk) as (_ & Hfr & Hsrc & _).
+  destruct (Nat.eq_dec i k) as [E|E]; [subst; rewrite Hsrc in Hs; apply F; exact Hs | rewrite (Hfr i) in Hs by congruence; apply F; exact Hs].
+Qed.
+
+
+Definition SameShape (s1 st : wstate) : Prop :=
+  List.length (kids s1) = List.length (kids st) /\ forall j, src (kid s1 j) = src (kid st j).
+
+Lemma sameshape_refl st : SameShape st st.
+Proof. split; [reflexivity | intros j; reflexivity]. Qed.
+Lemma sameshape_trans a b c : SameShape a b -> SameShape b c -> SameShape a c.
+Proof. intros [L1 S1] [L2 S2]. split; [congruence | intros j; rewrite S1; apply S2]. Qed.
+Lemma sameshape_run uc st k : k < List.length (kids st) -> SameShape (fst (run_child uc st k)) st.
+Proof.
+  intros Hk. destruct (run_child_frame uc st k Hk) as (Hl & Hfr & Hs & _). split; [exact Hl|].
+  intros j. destruct (Nat.eq_dec j k) as [E|E]; [subst; exact Hs | rewrite (Hfr j) by exact E; reflexivity].
+Qed.
+
+Lemma valid_run_true st k : Valid st -> Valid (fst (run_child true st k)).
+Proof.
+  intros V. pose proof (run_child_twin st k V) as H.
+  destruct (run_child true st k) as [s1 x1]. destruct (run_child false (er st) k) as [s2 x2]. destruct H as (_ & _ & V1). exact V1.
+Qed.
+
+Lemma start_true_inv : forall is st ran, Valid st -> Forward st -> RanInv st ran -> NoDup is ->
+  (forall i, In i is -> i < List.length (kids st) /\ ~ In i ran) ->
+  forall s1 r1, start_phase true st is ran = (s1, r1, CRan) ->
+  Valid s1 /\ Forward s1 /\ RanInv s1 r1 /\ SameShape s1 st /\
+  (forall i, In i ran -> In i r1) /\
+  (forall i, In i is -> src (kid st i) = None -> In i r1) /\
+  (forall i, In i r1 -> In i ran \/ (In i is /\ src (kid st i) = None)).
+Proof.
+  induction is as [|k r IH]; intros st ran V F R Hnd Hb s1 r1 E; cbn [start_phase] in E.
+  - inversion E; subst. split; [exact V|]. split; [exact F|]. split; [exact R|]. split; [apply sameshape_refl|].
+    split; [intros i Hi; exact Hi|]. split; [intros i []|]. intros i Hi. left. exact Hi.
+  - inversion Hnd as [|? ? Hk Hr]; subst.
+    destruct (Hb k (or_introl eq_refl)) as [Hkl Hkn].
+    destruct (src (kid st k)) as [j|] eqn:Es.
+    + destruct (IH st ran V F R Hr (fun i Hi => Hb i (or_intror Hi)) s1 r1 E) as (A & B & C & D & E1 & E2 & E3).
+      split; [exact A|]. split; [exact B|]. split; [exact C|]. split; [exact D|]. split; [exact E1|]. split.
+      * intros i [Ei|Hi] Hs; [subst; congruence | apply E2; assumption].
+      * intros i Hi. destruct (E3 i Hi) as [H|[H1 H2]]; [left; exact H | right; split; [right; exact H1 | exact H2]].
+    + destruct (run_child true st k) as [st1 x] eqn:Er. destruct x; try discriminate.
+      assert (V1 : Valid st1) by (pose proof (valid_run_true st k V) as H; rewrite Er in H; exact H).
+      assert (F1 : Forward st1) by (pose proof (forward_frame true st k Hkl F) as H; rewrite Er in H; exact H).
+      assert (Sh : SameShape st1 st) by (pose proof (sameshape_run true st k Hkl) as H; rewrite Er in H; exact H).
+      assert (R1 : RanInv st1 (k :: ran)).
+      { pose proof (raninv_step true st ran k V F R Hkl Hkn) as H. rewrite Er in H. apply H; [|reflexivity].
+        intros j Hj. congruence. }
+      destruct Sh as [Hl Hsrc].
+      destruct (IH st1 (k :: ran) V1 F1 R1 Hr) with (s1 := s1) (r1 := r1) as (A & B & C & D & E1 & E2 & E3); [| exact E |].
+      * intros i Hi. destruct (Hb i (or_intror Hi)) as [H1 H2]. split; [rewrite Hl; exact H1|].
+        intros [Ei|Hin]; [subst; contradiction | contradiction].
+      * split; [exact A|]. split; [exact B|]. split; [exact C|]. split; [|split; [|split]].
+        -- eapply sameshape_trans; [exact D | split; assumption].
+        -- intros i Hi. apply E1. right. exact Hi.
+        -- intros i [Ei|Hi] Hs; [subst; apply E1; left; reflexivity | apply E2; [exact Hi | rewrite Hsrc; exact Hs]].
+        -- intros i Hi. destruct (E3 i Hi) as [[Ei|H]|[H1 H2]].
+           ++ subst. right. split; [left; reflexivity | exact Es].
+           ++ left. exact H.
+           ++ right. split; [right; exact H1 | rewrite <- Hsrc; exact H2].
+Qed.
+
+Lemma loop_false_stays uc is : forall st ran, snd (loop_phase uc st is ran false) = false.
+Proof.
+  induction is as [|i r IH]; intros st ran; cbn [loop_phase]; [reflexivity|].
+  destruct (src (kid st i)) as [j|]; [|apply IH]. destruct (memn j ran); [|apply IH].
+  destruct (run_child uc st i) as [s1 x]. destruct x; apply IH.
+Qed.
+
+Lemma loop_true_inv : forall n a st ran, a + n = List.length (kids st) ->
+  Valid st -> Forward st -> RanInv st ran ->
+  (forall j, j < List.length (kids st) -> src (kid st j) = None -> In j ran) ->
+  (forall j, j < a -> In j ran) ->
+  (forall i, In i ran -> src (kid st i) <> None -> i < a) ->
+  forall s1, loop_phase true st (seq a n) ran true = (s1, true) ->
+  SameShape s1 st /\ forall i, i < List.length (kids s1) -> settled_child s1 i.
+Proof.
+  induction n as [|n IH]; intros a st ran Hl V F R Hu Hc Hlt s1 E; cbn [seq loop_phase] in E.
+  - inversion E; subst. split; [apply sameshape_refl|]. intros i Hi. apply R. apply Hc. lia.
+  - assert (Ha : a < List.length (kids st)) by lia.
+    destruct (src (kid st a)) as [j|] eqn:Es.
+    + assert (Hj : In j ran) by (apply Hc; apply (F a j Es)).
+      assert (Hm : memn j ran = true) by (apply memn_In; exact Hj). rewrite Hm in E.
+      destruct (run_child true st a) as [st1 x] eqn:Er.
+      destruct x; try (exfalso; pose proof (loop_false_stays true (seq (S a) n) st1 ran) as Hf; rewrite E in Hf; discriminate).
+      assert (Hna : ~ In a ran).
+      { intros Hin. assert (a < a) by (apply Hlt; [exact Hin | congruence]). lia. }
+      assert (V1 : Valid st1) by (pose proof (valid_run_true st a V) as H; rewrite Er in H; exact H).
+      assert (F1 : Forward st1) by (pose proof (forward_frame true st a Ha F) as H; rewrite Er in H; exact H).
+      assert (Sh : SameShape st1 st) by (pose proof (sameshape_run true st a Ha) as H; rewrite Er in H; exact H).
+      assert (R1 : RanInv st1 (a :: ran)).
+      { pose proof (raninv_step true st ran a V F R Ha Hna) as H. rewrite Er in H. apply H; [|reflexivity].
+        intros j' Hj'. rewrite Es in Hj'. inversion Hj'; subst. exact Hj. }
+      destruct Sh as [Hl1 Hsrc].
+      destruct (IH (S a) st1 (a :: ran)) with (s1 := s1) as [D S']; try assumption; try lia.
+      * intros x Hx Hs. right. apply Hu; [lia | rewrite <- Hsrc; exact Hs].
+      * intros x Hx. destruct (Nat.eq_dec x a) as [Ex|Ex]; [left; symmetry; exact Ex | right; apply Hc; lia].
+      * intros i [Ei|Hi] Hs; [subst; lia|]. assert (i < a) by (apply Hlt; [exact Hi | rewrite <- Hsrc; exact Hs]). lia.
+      * split; [eapply sameshape_trans; [exact D | split; assumption] | exact S'].
+    + destruct (IH (S a) st ran) with (s1 := s1) as [D S']; try assumption; try lia.
+      * intros x Hx. destruct (Nat.eq_dec x a) as [Ex|Ex]; [subst; apply Hu; assumption | apply Hc; lia].
+      * intros i Hi Hs. assert (i < a) by (apply Hlt; assumption). lia.
+      * split; assumption.
+Qed.
+
+Theorem body_success_settles st s1 : Valid st -> Forward st -> body true st = (s1, WValue) -> Settled s1 /\ SameShape s1 st.
+Proof.
+  intros V F E. unfold body in E.
+  destruct (start_phase true st (seq 0 (List.length (kids st))) []) as [[st1 ran] x] eqn:Es.
+  destruct x; try discriminate.
+  assert (R0 : RanInv st []) by (intros i []).
+  destruct (start_true_inv (seq 0 (List.length (kids st))) st [] V F R0 (seq_NoDup _ _)) with (s1 := st1) (r1 := ran)
+    as (V1 & F1 & R1 & [Hl Hsrc] & _ & E2 & E3); [| exact Es |].
+  { intros i Hi. apply in_seq in Hi. split; [lia | intros []]. }
+  destruct (loop_phase true st1 (seq 0 (List.length (kids st))) ran true) as [st2 ok] eqn:El.
+  destruct ok; [|discriminate]. inversion E; subst s1.
+  rewrite <- Hl in El.
+  destruct (loop_true_inv (List.length (kids st1)) 0 st1 ran) with (s1 := st2) as [D S']; try assumption; try lia.
+  - intros j Hj Hs. apply E2; [apply in_seq; lia | rewrite <- Hsrc; exact Hs].
+  - intros i Hi Hs. destruct (E3 i Hi) as [[]|[_ H]]. exfalso. apply Hs. rewrite Hsrc. exact H.
+  - split; [exact S' | eapply sameshape_trans; [exact D | split; assumption]].
+Qed.
+
+(* ---- the shape (length, wiring) of a workflow only changes by connect / disconnect -------------------- *)
+Lemma start_shape uc is : forall st ran, (forall i, In i is -> i < List.length (kids st)) ->
+  SameShape (fst (fst (start_phase uc st is ran))) st.
+Proof.
+  induction is as [|k r IH]; intros st ran Hb; cbn [start_phase]; [apply sameshape_refl|].
+  assert (Hk : k < List.length (kids st)) by (apply Hb; left; reflexivity).
+  destruct (src (kid st k)); [apply IH; intros i Hi; apply Hb; right; exact Hi|].
+  pose proof (sameshape_run uc st k Hk) as Sh. destruct (run_child uc st k) as [s1 x]. cbn [fst] in Sh.
+  destruct x; cbn [fst]; try exact Sh.
+  eapply sameshape_trans; [apply IH | exact Sh]. intros i Hi. destruct Sh as [Hl _]. rewrite Hl. apply Hb. right. exact Hi.
+Qed.
+
+Lemma loop_shape uc is : forall st ran ok, (forall i, In i is -> i < List.length (kids st)) ->
+  SameShape (fst (loop_phase uc st is ran ok)) st.
+Proof.
+  induction is as [|k r IH]; intros st ran ok Hb; cbn [loop_phase]; [apply sameshape_refl|].
+  assert (Hk : k < List.length (kids st)) by (apply Hb; left; reflexivity).
+  assert (Hr : forall i, In i r -> i < List.length (kids st)) by (intros i Hi; apply Hb; right; exact Hi).
+  destruct (src (kid st k)) as [j|]; [|apply IH; exact Hr]. destruct (memn j ran); [|apply IH; exact Hr].
+  pose proof (sameshape_run uc st k Hk) as Sh. destruct (run_child uc st k) as [s1 x]. cbn [fst] in Sh.
+  assert (Hr1 : forall i, In i r -> i < List.length (kids s1)) by (intros i Hi; destruct Sh as [Hl _]; rewrite Hl; apply Hr; exact Hi).
+  destruct x; (eapply sameshape_trans; [apply IH; exact Hr1 | exact Sh]).
+Qed.
+
+Lemma body_shape uc st : SameShape (fst (body uc st)) st.
+Proof.
+  unfold body. pose proof (start_shape uc (seq 0 (List.length (kids st))) st []) as H1.
+  destruct (start_phase uc st (seq 0 (List.length (kids st))) []) as [[s1 ran] x]. cbn [fst] in H1.
+  assert (Sh1 : SameShape s1 st) by (apply H1; intros i Hi; apply in_seq in Hi; lia).
+  destruct x; cbn [fst]; try exact Sh1.
+  pose proof (loop_shape uc (seq 0 (List.length (kids st))) s1 ran true) as H2.
+  destruct (loop_phase uc s1 (seq 0 (List.length (kids st))) ran true) as [s2 ok]. cbn [fst] in *.
+  eapply sameshape_trans; [apply H2 | exact Sh1]. intros i Hi. apply in_seq in Hi. destruct Sh1 as [Hl _]. lia.
+Qed.
+
+Lemma forward_shape s1 st : SameShape s1 st -> Forward st -> Forward s1.
+Proof. intros [_ Hs] F i j H. rewrite Hs in H. apply F. exact H. Qed.
+
+Lemma kid_default st i : List.length (kids st) <= i -> kid st i = dchild.
+Proof. intros H. unfold kid. apply nth_overflow. exact H. Qed.
+
+Lemma forward_step st o : Forward st -> Forward (fst (wstep true st o)).
+Proof.
+  intros F. destruct o as [i v|d s|d| |]; cbn [wstep fst].
+  - unfold upd_kid. destruct (Nat.ltb i (List.length (kids st))) eqn:El; [|exact F]. apply Nat.ltb_lt in El.
+    intros a b H. destruct (Nat.eq_dec a i) as [E|E];
+      [subst; rewrite kid_set_eq in H by exact El; cbn in H; apply F; exact H | rewrite kid_set_neq in H by congruence; apply F; exact H].
+  - destruct (Nat.ltb s d) eqn:Es; [|exact F]. apply Nat.ltb_lt in Es.
+    unfold upd_kid. destruct (Nat.ltb d (List.length (kids st))) eqn:El; [|exact F]. apply Nat.ltb_lt in El.
+    intros a b H. destruct (Nat.eq_dec a d) as [E|E];
+      [subst; rewrite kid_set_eq in H by exact El; cbn in H; inversion H; subst; exact Es | rewrite kid_set_neq in H by congruence; apply F; exact H].
+  - unfold upd_kid. destruct (Nat.ltb d (List.length (kids st))) eqn:El; [|exact F]. apply Nat.ltb_lt in El.
+    intros a b H. destruct (Nat.eq_dec a d) as [E|E];
+      [subst; rewrite kid_set_eq in H by exact El; cbn in H; discriminate | rewrite kid_set_neq in H by congruence; apply F; exact H].
+  - unfold run_wf. destruct (wfailed st); [exact F|].
+    destruct (true && match wcache st with Some k => key_eqb k (key st) | None => false end); [exact F|].
+    pose proof (body_shape true st) as Sh. destruct (body true st) as [s1 r]. cbn [fst] in Sh.
+    assert (F1 : Forward s1) by (apply (forward_shape s1 st Sh F)).
+    destruct r; cbn [fst]; intros a b H; apply (F1 a b); exact H.
+  - intros a b H. unfold kid in H. cbn in H.
+    change dchild with ((fun c => {| ck := ck c; own := own c; src := src c; out := out c; ccache := ccache c; cfailed := false |}) dchild) in H.
+    rewrite map_nth in H. cbn in H. apply F. exact H.
+Qed.
+
+Theorem forward_reachable ks ops : Forward (wexec true (winit ks) ops).
+Proof.
+  assert (H : forall st, Forward st -> Forward (wexec true st ops)).
+  { induction ops as [|o r IH]; intros st F; cbn; [exact F | apply IH; apply forward_step; exact F]. }
+  apply H. intros i j Hs. unfold kid, winit in Hs. cbn in Hs.
+  destruct (nth_in_or_default i (map (fun p : Z * Z => {| ck := fst p; own := snd p; src := None; out := None; ccache := None; cfailed := false |}) ks) dchild) as [Hin|Hd].
+  - apply in_map_iff in Hin. destruct Hin as [p [E _]]. rewrite <- E in Hs. discriminate.
+  - rewrite Hd in Hs. discriminate.
+Qed.
+
+Lemma key_eqb_refl k : key_eqb k k = true.
+Proof. induction k as [|[i x] r IH]; cbn; [reflexivity|]. rewrite Nat.eqb_refl, Z.eqb_refl, IH. reflexivity. Qed.
+
+Lemma settled_er st : Settled st -> Settled (er st).
+Proof.
+  intros S i Hi. rewrite er_length in Hi. destruct (S i Hi) as (Hf & Hp & Ho & Hs).
+  unfold settled_child. rewrite kid_er. cbn [er_child cfailed own out ck src]. repeat split; try assumption.
+  destruct (src (kid st i)) as [j|]; [|exact I]. destruct Hs as [Hj Hoj]. split; [exact Hj|]. rewrite kid_er. exact Hoj.
+Qed.
+
+(* Every successful run that was really executed leaves a state in which running AGAIN, nothing touched, is
+   (i) served from the workflow's cache and (ii) exactly what the uncached twin does: nothing changes. *)
+Theorem repeat_run_sound ks ops s1 :
+  let st := wexec true (winit ks) ops in
+  (match wcache st with Some k => key_eqb k (key st) | None => false end) = false ->
+  run_wf true st = (s1, WValue) ->
+  run_wf true s1 = (s1, WValue) /\ run_wf false (er s1) = (er s1, WValue).
+Proof.
+  intros st Hm E. unfold run_wf in E. destruct (wfailed st) eqn:Ef; [discriminate|]. rewrite Hm in E. cbn [andb] in E.
+  destruct (body true st) as [st1 r] eqn:Eb. destruct r; try discriminate. inversion E; subst s1. clear E.
+  destruct (body_success_settles st st1 (valid_reachable ks ops) (forward_reachable ks ops) Eb) as [S _].
+  split.
+  - unfold run_wf. cbn [wfailed wcache andb]. unfold key at 1. cbn [kids]. fold (key st1). rewrite key_eqb_refl. reflexivity.
+  - set (s1 := {| kids := kids st1; wcache := Some (key st1); wfailed := false |}).
+    assert (S1 : Settled s1) by (intros i Hi; apply (S i Hi)).
+    pose proof (hit_on_settled_equals_twin (er s1) (settled_er s1 S1) eq_refl) as [H1 H2].
+    destruct (run_wf false (er s1)) as [a b]. cbn in H1, H2. subst. reflexivity.
+Qed.
